@@ -352,7 +352,17 @@ func init() {
 						srcIA = lia
 					}
 					sport := uc.Local().Port()
-					pkt := &peer.SCIONPkt{SrcIA: srcIA, DstIA: lia, SrcHost: cli, DstHost: srv, SrcPort: sport, DstPort: 10123, Path: pth, Payload: p,
+					// SCION host addresses of either family, independently for source and destination
+					srcHost, dstHost := cli, srv
+					switch (seed >> 20) % 4 {
+					case 1:
+						srcHost = netip.MustParseAddr("fd00:1:2:3:4:5:6:7")
+					case 2:
+						dstHost = netip.MustParseAddr("fd00::9")
+					case 3:
+						srcHost, dstHost = netip.MustParseAddr("fd00:1:2:3:4:5:6:7"), netip.MustParseAddr("fd00::9")
+					}
+					pkt := &peer.SCIONPkt{SrcIA: srcIA, DstIA: lia, SrcHost: srcHost, DstHost: dstHost, SrcPort: sport, DstPort: 10123, Path: pth, Payload: p,
 						FlowID: uint32(seed & 0xfffff)}
 					dg, err := pkt.Serialize()
 					if err != nil {
@@ -366,7 +376,7 @@ func init() {
 						problem := ""
 						srcH, _ := ps.SCION.SrcAddr()
 						dstH, _ := ps.SCION.DstAddr()
-						if ps.SCION.SrcIA != lia || ps.SCION.DstIA != srcIA || srcH.IP() != srv || dstH.IP() != cli ||
+						if ps.SCION.SrcIA != lia || ps.SCION.DstIA != srcIA || srcH.IP() != dstHost || dstH.IP() != srcHost ||
 							ps.UDP.SrcPort != 10123 || ps.UDP.DstPort != sport {
 							problem = "SCION addresses or ports not exchanged"
 						}
